@@ -40,28 +40,11 @@ def streams(ctx):
                 line = b"file: some/path/name.flac\n"
                 s = line * (sz // len(line)) + b"x: " + b"y" * (sz % len(line)) + b"\nOK\nACK [1@0] {} e\n"
             out.append((s, "eof"))
-    # pipelined responses where a grown buffer meets the next response: R1 larger than the buffer, then R2 starting
-    # with one component larger than what is left buffered (bulk reads make R2's head arrive with R1's tail)
-    def big(kind, sz):
-        if kind == "lines":
-            line = b"file: some/path/name.flac\n"
-            return line * (sz // len(line)) + b"OK\n"
-        if kind == "value":
-            return b"sticker: lyrics=" + b"l" * sz + b"\nOK\n"
-        if kind == "payload":
-            return b"binary: " + str(sz).encode() + b"\n" + bytes((i * 11 + 3) % 256 for i in range(sz)) + b"\nOK\n"
-        if kind == "sized":
-            return b"size: " + str(sz).encode() + b"\nbinary: " + str(sz).encode() + b"\n" + b"\n" * sz + b"\nOK\n"
-        return b"a: b\nOK\n"
-    kinds = ["lines", "value", "payload", "sized", "small"]
-    combos = [("lines", 5043, "value", 12000), ("value", 4097, "value", 4096), ("payload", 8192, "payload", 8192),
-              ("lines", 9000, "payload", 20000), ("value", 6000, "lines", 13000), ("sized", 5000, "value", 9000)]
-    for _ in range(6 if ctx.tier == "quick" else 60):
-        combos.append((rng.choice(kinds), rng.choice([4095, 4096, 4097, 5000, 8191, 8193, 12000]),
-                       rng.choice(kinds), rng.choice([4095, 4096, 4097, 6000, 8192, 12000, 17000])))
-    for k1, s1, k2, s2 in combos:
-        s = big(k1, s1) + big(k2, s2) + rng.choice([b"", b"x: y\nOK\n", big("value", 5000)])
-        out.append((s, "eof"))
+    for st in g.pipelined_long_streams(rng, 6 if ctx.tier == "quick" else 60):
+        out.append((st, "eof"))
+    for st, _ in g.exact_fill_streams():
+        out.append((st, "eof"))
+        out.append((st, "err"))
     return out
 
 
